@@ -18,9 +18,13 @@
      7  listed text: ill-formed text accepted
      8  listed text: well-formed text rejected
      9  listed text that must be accepted (repository file) is ill-formed for the model
+     10  the reference parser ran out of fuel on the text (never happens; a
+         mismatch of its own, not a verdict)
      100  skipped: the text uses USE / WAITFOR (outside the model)
-     101  skipped: disagreement on a text where '?' after ')' needs unbounded
-          look-ahead (the model's fixed resolution may differ from ALL( * )) *)
+
+   Well-formed means: the whole token list parses under SOME reading of the
+   '?' tokens that follow ')' (error operator or ternary) — Parser.parse_query
+   tries them all, in the generated parser's order of preference. *)
 From Ferret Require Import Render.
 From Ferret Require Export Check.Common.
 
@@ -32,22 +36,15 @@ Definition kinds_agree (ts : toks) (s : string) : bool :=
      | _, _ => false
      end) ts s.
 
-Definition wf (ts : toks) : bool :=
-  match parse_program ts with Some _ => true | None => false end.
+(* Some true: well-formed, Some false: ill-formed, None: out of fuel *)
+Definition wfq (ts : toks) : option bool :=
+  match parse_query ts with POk _ _ => Some true | PFail => Some false | PFuel => None end.
+Definition wf (ts : toks) : bool := match wfq ts with Some true => true | _ => false end.
 
 Definition accepted (o : ascii) : bool := (N_of_ascii o =? 48)%N.
 (* with the model's verdict [w], is observation [o] what the property allows? *)
 Definition obs_ok (w : bool) (o : ascii) : bool :=
   if w then (N_of_ascii o =? 48)%N || (N_of_ascii o =? 50)%N else negb (accepted o).
-
-(* the resolution of '?' after ')' is the one place where the model commits
-   to a bounded look-ahead; disagreements there are counted, not reported *)
-Fixpoint q_after_paren (ts : toks) : bool :=
-  match ts with
-  | (KRParen, _) :: (KQuestion, _) :: _ => true
-  | _ :: r => q_after_paren r
-  | [] => false
-  end.
 
 Fixpoint remove_nth {A} (n : nat) (l : list A) : list A :=
   match l, n with
@@ -65,10 +62,10 @@ Fixpoint dup_nth {A} (n : nat) (l : list A) : list A :=
 Definition verdict (kill kwell : N) (i j : N) (ts : toks) (o : ascii) : list (N * N * N) :=
   if uses_unsupported ts then [(100%N, i, j)]
   else
-    let w := wf ts in
-    if obs_ok w o then []
-    else if q_after_paren ts then [(101%N, i, j)]
-    else [((if w then kwell else kill), i, j)].
+    match wfq ts with
+    | None => [(10%N, i, j)]
+    | Some w => if obs_ok w o then [] else [((if w then kwell else kill), i, j)]
+    end.
 
 (* variants of one program; [o] = observations: base, deletions, duplications, suffixes *)
 Fixpoint variants (mk : nat -> toks) (kill kwell : N) (i : N) (j0 : N) (k n : nat) (o : string)
@@ -94,8 +91,11 @@ Definition check_prog (sufs : list toks) (i : N) (c : bytes * string * string) :
       match o with
       | EmptyString => [(6%N, i, 1%N)]
       | String b o1 =>
-          (if wf ts then (if obs_ok true b then [] else [(1%N, i, 0%N)])
-           else if q_after_paren ts then [(101%N, i, 0%N)] else [(0%N, i, 0%N)]) ++
+          match wfq ts with
+          | None => [(10%N, i, 0%N)]
+          | Some true => if obs_ok true b then [] else [(1%N, i, 0%N)]
+          | Some false => [(0%N, i, 0%N)]
+          end ++
           let '(r1, o2) := variants (fun k => remove_nth k ts) 2%N 3%N i 1%N 0 n o1 in
           let '(r2, o3) := variants (fun k => dup_nth k ts) 2%N 3%N i (1 + N.of_nat n)%N 0 n o2 in
           let '(r3, _) := variants (fun k => ts ++ nth k sufs []) 4%N 5%N i (1 + 2 * N.of_nat n)%N 0
@@ -119,11 +119,12 @@ Definition check_text (i : N) (c : bytes * string * ascii * bool) : list (N * N 
       (if kinds_agree ts ks then [] else [(6%N, i, 0%N)]) ++
       (if uses_unsupported ts then [(100%N, i, 0%N)]
        else
-         let w := wf ts in
-         (if must && negb w then [((if q_after_paren ts then 101%N else 9%N), i, 0%N)] else []) ++
-         (if obs_ok w o then []
-          else if q_after_paren ts then [(101%N, i, 0%N)]
-          else [((if w then 8%N else 7%N), i, 0%N)]))
+         match wfq ts with
+         | None => [(10%N, i, 0%N)]
+         | Some w =>
+             (if must && negb w then [(9%N, i, 0%N)] else []) ++
+             (if obs_ok w o then [] else [((if w then 8%N else 7%N), i, 0%N)])
+         end)
   end.
 Fixpoint texts_from (i : N) (cs : list (bytes * string * ascii * bool)) : list (N * N * N) :=
   match cs with
